@@ -213,7 +213,7 @@ class C15(core.Check):
 
     nshards_quick = 16
     nshards_thorough = 64
-    budget_quick = 400
+    budget_quick = 900
     budget_thorough = 3000
 
     def setup(self, tier):
